@@ -600,7 +600,7 @@ theorem compile_sides_defined {m : Model (Ext K)} {tol : Ext K} {maxSteps : Nat}
     (h : Compile.linearize m tol maxSteps = .ok lm) (hm : LogicModel m m.domain) :
     DefOn m.domain m.objective ∧
     ∀ c ∈ m.constraints, DefOn m.domain c.lhs ∧ (c.isAssert = false → DefOn m.domain c.rhs) := by
-  obtain ⟨an, han, hlin⟩ := (compile_ok_iff m _ maxSteps lm).mp h
+  obtain ⟨_, an, han, hlin⟩ := (compile_ok_iff m _ maxSteps lm).mp h
   refine ⟨fun ρ hd => def_iff_exists.mp (obj_defined_at hlin hm.obj.fin ρ (hm.obj.nc ρ hd)), ?_⟩
   intro c hc
   obtain ⟨sa, ra, hproc⟩ := compiled_processed hlin c hc
